@@ -24,7 +24,7 @@ CHECKS['C20'] = dict(
         thorough=[dict(tu='c20_raster', group='line', bounds=dict(N=20, cap=16), shards=24),
                   dict(tu='c20_raster', group='circle', bounds=dict(R=1024), shards=12),
                   dict(tu='c20_raster', group='ellipse', bounds=dict(A=160), shards=12)]),
-    witnesses_required=dict(all=['line_octant_0', 'line_octant_1', 'line_octant_2', 'line_octant_3', 'line_octant_4',
+    witnesses_required=dict(all=['line_through_back_inserter', 'line_octant_0', 'line_octant_1', 'line_octant_2', 'line_octant_3', 'line_octant_4',
                                  'line_octant_5', 'line_octant_6', 'line_octant_7', 'line_axis_parallel', 'line_diagonal',
                                  'line_single_point', 'line_shallow_4to1', 'line_apply_painted', 'circle_trigonometric',
                                  'circle_midpoint', 'circle_apply_painted', 'ellipse_thin', 'ellipse_general',
